@@ -6,6 +6,7 @@ optional `focus` (substring of a module / class name: restrict the scopes to the
 """
 import copy
 import itertools
+import json
 import math
 import pickle
 
@@ -254,6 +255,51 @@ def check_C03(env):
                                                                                            got[a], exp[a]),
                                               case, got, exp, 'neighbors')
                 yield case
+    # an arm whose label is wider than every label seen at fit is first observed by partial_fit
+    for nbh in (NBH_EXACT[0], NBH_EXACT[3]):
+        lp = CF_OUT[0]
+        if not in_focus(env, lp, nbh):
+            continue
+        arms = ['A', 'B', 'long_arm']
+        rows1 = rand_rows(rng, 8, arms[:2], False, 2)
+        rows2 = rand_rows(rng, 6, arms, False, 2)
+        rows2[0][0] = 'long_arm'
+        case = {'arms': arms, 'lp': lp, 'np': nbh, 'calls': [['fit'] + rows1, ['partial_fit'] + rows2]}
+        m = build(case)
+        ref = oracle.RefBandit(arms, lp, nbh)
+        for c in case['calls']:
+            call(m, c)
+            ref.apply(c)
+        for q in GRID_QUERIES[:4]:
+            idx = nbh_rows(nbh, ref.rows, q)
+            if not idx:
+                continue
+            got = m.predict_expectations([q])
+            exp = oracle.lp_stat(lp, arms, ref.rows.subset(idx), q)
+            if not all(close(got[a], exp[a], 1e-9) for a in arms):
+                raise Failure('C03', '%s with string labels of different widths: query %r has %r, the neighbourhood rows %r give %r'
+                              % (nbh[0], q, got, idx, exp), case, got, exp, 'neighbors')
+        yield case
+    # a large radius with rows exactly on it and one grid step beyond it (no tolerance at the boundary)
+    for metric, radius in (('cityblock', 200000.0), ('chebyshev', 300000.0), ('sqeuclidean', 250000.0)):
+        lp, nbh = CF_OUT[0], ['Radius', {'radius': radius, 'metric': metric}]
+        if not in_focus(env, lp, nbh):
+            continue
+        on = {'cityblock': [radius, 0], 'chebyshev': [radius, 5], 'sqeuclidean': [500, 0]}[metric]
+        off = {'cityblock': [radius, 1], 'chebyshev': [radius + 1, 5], 'sqeuclidean': [500, 1]}[metric]
+        rows = [[1, 2, 3, 1], [10, 2, 6, 4], [[0, 0], on, off, [1, 0]]]
+        case = {'arms': ARMS, 'lp': lp, 'np': nbh, 'calls': [['fit'] + rows]}
+        m = build(case)
+        drive(m, case['calls'])
+        ref = oracle.RefBandit(ARMS, lp, nbh)
+        ref.apply(case['calls'][0])
+        idx = oracle.radius_rows(ref.rows, [0, 0], radius, metric)
+        got = m.predict_expectations([[0, 0]])
+        exp = oracle.lp_stat(lp, ARMS, ref.rows.subset(idx), [0, 0])
+        if not all(close(got[a], exp[a], 1e-9) for a in ARMS):
+            raise Failure('C03', 'Radius(%g, %s): rows exactly on the radius belong to the neighbourhood, the row one step beyond '
+                          'does not: got %r, rows %r give %r' % (radius, metric, got, idx, exp), case, got, exp, 'neighbors')
+        yield case
     # the empty-neighbourhood distribution: never an arm with probability zero
     for lp in CF_OUT[:1]:
         nbh = ['Radius', {'radius': 0.5, 'metric': 'cityblock', 'no_nhood_prob_of_arm': [0.0, 1.0, 0.0]}]
@@ -361,6 +407,38 @@ def check_C04(env):
         yield case
 
 
+    if env.get('tier') == 'thorough' and in_focus(env, CF_OUT[0]):
+        # other interpreter processes with other hash seeds (string labels, tied distances in warm_start)
+        import os
+        import subprocess
+        import sys
+        child = (
+            "import json, sys\n"
+            "from rt.core import build\n"
+            "case = json.loads(sys.argv[1])\n"
+            "m = build(case)\n"
+            "m.fit(case['d'], case['r'])\n"
+            "m.warm_start({k: v for k, v in case['feats']}, 1.0)\n"
+            "print(json.dumps([[str(k), v['is_warm'], str(v['warm_started_by'])] for k, v in m._imp.arm_to_status.items()]))\n"
+            "print(json.dumps({str(k): float(v) for k, v in m.predict_expectations().items()}))\n")
+        for lp in (CF_OUT[0], CF_OUT[1]):
+            arms = ['news', 'sports', 'cooking', 'travel']
+            case = {'arms': arms, 'lp': lp, 'seed': 6, 'd': ['news', 'sports', 'news', 'sports', 'sports'], 'r': [1, 0, 1, 1, 0],
+                    # cooking and travel are equally close to news and to sports (which share one feature vector)
+                    'feats': [['news', [1.0, 0.0]], ['sports', [1.0, 0.0]], ['cooking', [1.0, 0.5]], ['travel', [0.5, 1.0]]]}
+            outs = []
+            for hs in ('0', '1', '2', '3', '4'):
+                e = dict(os.environ)
+                e['PYTHONHASHSEED'] = hs
+                e['PYTHONPATH'] = os.pathsep.join(sys.path)
+                pr = subprocess.run([sys.executable, '-c', child, json.dumps(case)], env=e, capture_output=True, text=True)
+                outs.append(pr.stdout.strip() or pr.stderr[-300:])
+            if len(set(outs)) != 1:
+                raise Failure('C04', 'equal bandits in interpreter processes with different PYTHONHASHSEED disagree '
+                              '(string labels, a cold arm equally close to two trained arms)', case, outs, outs[0], 'base_mab')
+            yield case
+
+
 # =========================================================================================== C05
 def check_C05(env):
     rng = env['rng']
@@ -434,6 +512,22 @@ def check_C06(env):
                 raise Failure('C06', 'fit on a prefix + partial_fit on the rest (cuts %r) differs from one fit: %s/%s'
                               % (cuts, lp[0], nbh and nbh[0]), case, rb, ra, MODULE_OF.get((nbh or lp)[0]))
             yield case
+    # a prefix whose rewards are all zero and an arm that is never played, then a chunk with positive rewards
+    for lp in (['Popularity', {}], ['EpsilonGreedy', {'epsilon': 0.0}], ['Softmax', {'tau': 0.7}]):
+        if not in_focus(env, lp):
+            continue
+        rows = [[1, 2, 1, 2, 1, 2, 2], [0, 0, 0, 0, 3, 1, 2]]
+        full = [['fit'] + rows]
+        calls = [['fit', rows[0][:4], rows[1][:4]], ['partial_fit', rows[0][4:], rows[1][4:]]]
+        case = {'arms': ARMS, 'lp': lp, 'calls': calls, 'seed': 3, 'batch': full}
+        a, b = build(case), build(case)
+        drive(a, full)
+        drive(b, calls)
+        sa, sb = dict(a._imp.arm_to_expectation), dict(b._imp.arm_to_expectation)
+        if not same_result(sa, sb, 1e-12):
+            raise Failure('C06', '%s: fit on an all-zero prefix (arm 3 never played) + partial_fit differs from one fit'
+                          % lp[0], case, sb, sa, MODULE_OF[lp[0]])
+        yield case
 
 
 # =========================================================================================== C07
@@ -499,6 +593,22 @@ def check_C08(env):
         yield case
 
 
+    # one result per query row whatever the number of jobs (3 and 5 rows over 2 jobs, 7 over 3)
+    for lp, nbh in [(CF_OUT[0], NBH_EXACT[0]), (CF_OUT[1], NBH_EXACT[3]), (CF_OUT[0], NBH_OTHER[0]), (CF_OUT[0], NBH_OTHER[1]),
+                    (TREE_LPS[0], NBH_OTHER[3])]:
+        if not in_focus(env, lp, nbh):
+            continue
+        rows = rand_rows(rng, 10, ARMS, False, 2)
+        for nj, m_rows in ((2, 3), (2, 5), (3, 7)):
+            case = {'arms': ARMS, 'lp': lp, 'np': nbh, 'calls': [['fit'] + rows], 'n_jobs': nj, 'backend': 'threading'}
+            m = build(case)
+            drive(m, case['calls'])
+            qs = [[int(rng.integers(-3, 4)), int(rng.integers(-3, 4))] for _ in range(m_rows)]
+            e, p_ = m.predict_expectations(qs), m.predict(qs)
+            if not (isinstance(e, list) and isinstance(p_, list) and len(e) == m_rows and len(p_) == m_rows):
+                raise Failure('C08', '%d query rows with n_jobs=%d: %s results' % (m_rows, nj, len(e) if isinstance(e, list) else 1),
+                              dict(case, queries=qs), [len(e) if isinstance(e, list) else 1], m_rows, 'base_mab')
+        yield case
     # two bandits built from one list object: an arm change of one must not reach the other
     from mabwiser.mab import MAB
     for lp in CF_ALL[:2] + LIN_DET[:1]:
@@ -685,6 +795,23 @@ def check_C17(env):
                                   'arm) changed the bandit (%s/%s)' % (lp[0], nbh and nbh[0]),
                                   {'arms': ARMS, 'lp': lp, 'np': nbh, 'calls': h2, 'rejected': [c2]}, None, None,
                                   MODULE_OF.get((nbh or lp)[0]))
+        if nbh and nbh[0] == 'Clusters':
+            victim, twin = build({'arms': ARMS, 'lp': lp, 'np': nbh, 'seed': 2}), build({'arms': ARMS, 'lp': lp, 'np': nbh, 'seed': 2})
+            one = rand_rows(rng, 1, ARMS, binary, d)
+            good = rand_rows(rng, 7, ARMS, binary, d)
+            rejected = False
+            try:
+                call(victim, ['partial_fit'] + one)
+            except Exception:       # noqa
+                rejected = True
+            if rejected:
+                call(victim, ['partial_fit'] + good)
+                call(twin, ['partial_fit'] + good)
+                if learned_state(victim) != learned_state(twin):
+                    raise Failure('C17', 'a first training batch rejected from inside training (fewer rows than clusters) '
+                                  'left the bandit different from one that never saw it (%s/%s)' % (lp[0], nbh[0]),
+                                  {'arms': ARMS, 'lp': lp, 'np': nbh, 'seed': 2, 'calls': [['partial_fit'] + good],
+                                   'rejected': [['partial_fit'] + one]}, None, None, 'mab')
         case = {'arms': ARMS, 'lp': lp, 'np': nbh, 'calls': h, 'rejected': bad}
         m = build(case)
         drive(m, h)
@@ -845,6 +972,52 @@ def check_C20(env):
                         raise Failure('C20', 'row order changes the expectations (%s/%s)' % (lp[0], nbh and nbh[0]), case_p,
                                       ep, ea, MODULE_OF.get((nbh or lp)[0]))
         yield case
+    # a label wider than every label seen at fit arrives by partial_fit (string widths, float vs int)
+    for nbh in (NBH_EXACT[0], NBH_EXACT[3], NBH_OTHER[0]):
+        lp = CF_OUT[0]
+        if not in_focus(env, lp, nbh):
+            continue
+        rows1 = rand_rows(rng, 8, [1, 2], False, 2)
+        rows2 = rand_rows(rng, 6, [1, 2, 3], False, 2)
+        rows2[0][0] = 3
+        for names in ({1: 'A', 2: 'B', 3: 'long_arm'}, {1: 1, 2: 2, 3: 2.5}):
+            ren = lambda rows: [[names[x] for x in rows[0]]] + rows[1:]        # noqa: E731
+            a = build({'arms': ARMS, 'lp': lp, 'np': nbh, 'seed': 8})
+            b = build({'arms': [names[x] for x in ARMS], 'lp': lp, 'np': nbh, 'seed': 8})
+            drive(a, [['fit'] + rows1, ['partial_fit'] + rows2])
+            drive(b, [['fit'] + ren(rows1), ['partial_fit'] + ren(rows2)])
+            for q in GRID_QUERIES[:3]:
+                ea, eb = a.predict_expectations([q]), b.predict_expectations([q])
+                if not same_result({names[k]: v for k, v in ea.items()}, eb, 1e-9):
+                    raise Failure('C20', 'labels %r instead of 1, 2, 3 change the expectations after partial_fit (%s)'
+                                  % (list(names.values()), nbh[0]),
+                                  {'arms': [names[x] for x in ARMS], 'lp': lp, 'np': nbh, 'seed': 8,
+                                   'calls': [['fit'] + ren(rows1), ['partial_fit'] + ren(rows2)]}, eb, ea, 'neighbors')
+        yield {}
+    # warm start must not depend on what the labels are (0, 0.0 and '' are labels like any other)
+    for lp in CF_OUT + LIN_DET[:1]:
+        if not in_focus(env, lp):
+            continue
+        ctx = lp[0].startswith('Lin')
+        rows = rand_rows(rng, 8, [1, 2], False, 2 if ctx else 0)
+        feats = {1: [1.0, 0.1], 2: [0.0, 1.0], 3: [1.0, 0.2]}
+        for names in ({1: 0, 2: 1, 3: 2}, {1: '', 2: 'b', 3: 'c'}):
+            a = build({'arms': ARMS, 'lp': lp, 'seed': 8})
+            b = build({'arms': [names[x] for x in ARMS], 'lp': lp, 'seed': 8})
+            a.fit(*rows)
+            b.fit([names[x] for x in rows[0]], *rows[1:])
+            a.warm_start(feats, 1.0)
+            b.warm_start({names[k]: v for k, v in feats.items()}, 1.0)
+            sa = {names[k]: v for k, v in a._imp.arm_to_status.items()}
+            sb = dict(b._imp.arm_to_status)
+            if any(sa[k]['is_warm'] != sb[k]['is_warm'] for k in sb):
+                raise Failure('C20', 'warm_start with labels %r warms other arms than with labels 1, 2, 3' % (list(names.values()),),
+                              {'arms': [names[x] for x in ARMS], 'lp': lp, 'seed': 8,
+                               'calls': [['fit', [names[x] for x in rows[0]]] + rows[1:],
+                                         ['warm_start', [[names[k], v] for k, v in feats.items()], 1.0]]},
+                              {str(k): v['is_warm'] for k, v in sb.items()}, {str(k): v['is_warm'] for k, v in sa.items()},
+                              'base_mab')
+        yield {}
     # reward shift / scale laws (every arm observed)
     rows = [[1, 2, 3, 1, 2, 3, 1], [4, 9, 1, 6, 3, 8, 2]]
     for lp in CF_DET:
@@ -1107,9 +1280,42 @@ def _check_C12_all(env):
         yield c
 
 
+def check_C19_binarizer(env):
+    rng = env['rng']
+    for nbh in (NBH_OTHER[3], NBH_EXACT[0], None):
+        lp = ['ThompsonSampling', {'binarizer': 'binz'}]
+        if not in_focus(env, lp, nbh):
+            continue
+        d = 2 if nbh else 0
+        rows = rand_rows(rng, 10, ARMS, False, d)
+        rows2 = rand_rows(rng, 5, ARMS + [6], False, d)
+        case = {'arms': ARMS, 'lp': lp, 'np': nbh, 'seed': 4, 'calls': [['fit'] + rows, ['predict'], ['add_arm', 6, 'binz_one']],
+                'continuation': [['partial_fit'] + rows2]}
+        m = build(case)
+        call(m, ['fit'] + rows)
+        observe(m, lp, nbh)
+        m.add_arm(6, core.binz_one)
+        clones = [copy.deepcopy(m), pickle.loads(pickle.dumps(m, protocol=4))]
+        call(m, ['partial_fit'] + rows2)
+        want = observe(m, lp, nbh)
+        for cl in clones:
+            call(cl, ['partial_fit'] + rows2)
+            if not same_result(observe(cl, lp, nbh), want, 0):
+                raise Failure('C19', 'a copy / pickle taken after predict and add_arm(arm, new binarizer) diverges from the '
+                              'original (%s)' % (nbh and nbh[0]), case, None, None, MODULE_OF.get((nbh or lp)[0]))
+        yield case
+
+
+def _check_C19_all(env):
+    for c in check_C19(env):
+        yield c
+    for c in check_C19_binarizer(env):
+        yield c
+
+
 CHECKS = {'C01': check_C01, 'C02': check_C02, 'C03': check_C03, 'C04': check_C04, 'C05': check_C05, 'C06': check_C06,
           'C07': check_C07, 'C08': check_C08, 'C09': check_C09, 'C10': check_C10, 'C11': check_C11, 'C12': _check_C12_all,
-          'C13': check_C13, 'C14': check_C14, 'C17': check_C17, 'C18': check_C18, 'C19': check_C19, 'C20': check_C20}
+          'C13': check_C13, 'C14': check_C14, 'C17': check_C17, 'C18': check_C18, 'C19': _check_C19_all, 'C20': check_C20}
 
 
 # =========================================================================================== C15 / C16 (Simulator)
